@@ -1,5 +1,6 @@
 #!/bin/bash
 # seedeval.sh <seed-dir> [props...] : confirm a seeded change (applies, builds, baseline passes, demo fails with / passes without)
+# (FAST=1 skips the demo/baseline confirmation: for re-evaluating already confirmed seeds)
 # and run the given checks (default: all claimed) against it. Prints one summary line. Scratch worktree is removed afterwards.
 export GOFLAGS=-mod=mod GOPROXY=off GOSUMDB=off GOTOOLCHAIN=local
 S=$1; shift
@@ -20,11 +21,11 @@ replace github.com/cockroachdb/errors => $WT
 EOF
 cp $WT/go.sum $DM/
 RACE=""; grep -qi 'race' $S/meta.json && RACE="-race"
-(cd $DM && go mod tidy >/dev/null 2>&1; go test $RACE -count=1 ./... >$VV/demo_clean.log 2>&1); CLEAN=$?
+if [ -n "$FAST" ]; then CLEAN=skip; else (cd $DM && go mod tidy >/dev/null 2>&1; go test $RACE -count=1 ./... >$VV/demo_clean.log 2>&1); CLEAN=$?; fi
 if ! git -C $WT apply $S/patch.diff 2>$VV/apply.log; then echo "$ID APPLY-FAILED $(head -1 $VV/apply.log)"; exit 1; fi
 (cd $WT && go build ./... >$VV/build.log 2>&1) || { echo "$ID BUILD-FAILED"; exit 1; }
-(cd $DM && go test $RACE -count=1 ./... >$VV/demo_mut.log 2>&1); MUT=$?
-python3 /verif/tools/baseline.py $WT >$VV/base.log 2>&1; BASE=$?
+if [ -n "$FAST" ]; then MUT=skip; BASE=skip; else (cd $DM && go test $RACE -count=1 ./... >$VV/demo_mut.log 2>&1); MUT=$?
+python3 /verif/tools/baseline.py $WT >$VV/base.log 2>&1; BASE=$?; fi
 PROPS="$@"; [ -z "$PROPS" ] && PROPS=$(python3 -c "import json;print(' '.join(c['property_id'] for c in json.load(open('/verif/MANIFEST.json'))['checks']))")
 DET=""
 for P in $PROPS; do
